@@ -74,6 +74,9 @@ type epStructMember struct {
 
 // Writer generates HLSL source code from IR.
 type Writer struct {
+	// missingBinding is the first resource found without a bind target.
+	missingBinding *Error
+
 	textutil.IndentWriter // provides Out, Indent, WriteLine, WriteIndent, PushIndent, PopIndent
 
 	module  *ir.Module
@@ -571,6 +574,9 @@ func (w *Writer) getBindTarget(binding *ir.ResourceBinding) BindTarget {
 		}
 	}
 
+	if w.missingBinding == nil {
+		w.missingBinding = NewError(ErrMissingBinding, fmt.Sprintf("no BindingMap entry for @group(%d) @binding(%d) and FakeMissingBindings is off", binding.Group, binding.Binding))
+	}
 	return DefaultBindTarget()
 }
 
